@@ -1,6 +1,7 @@
 #![allow(dead_code)]
 mod allocsc;
 mod crash;
+mod enumchk;
 mod extra;
 mod fault;
 mod hist;
